@@ -830,6 +830,36 @@ def _accept(spec):
     return V, Jc, nf, nun, dist
 
 
+def steady_residual(spec, V):
+    n = spec["n"]
+    x = np.where(spec["logs"], np.exp(V), V)
+    r = np.zeros(n)
+    for i, e in enumerate(spec["eqs"]):
+        r[i] = -V[i] + e["const"] + sum(c * V[j] for (j, _sh, c) in e["terms"]) + \
+            sum(c * x[j1] * x[j2] for (j1, _s1, j2, _s2, c) in e["nl"])
+    return r
+
+
+def accept_at_model_steady(spec, m, acc):
+    """A model with product terms can have several steady states; the implementation linearises around the one ITS steady
+    solver found.  Re-derive the independent linearisation there (after checking, with the equations evaluated from the
+    generated coefficients, that it is a steady state).  Models without product terms have a unique steady state."""
+    if not any(e["nl"] for e in spec["eqs"]):
+        return acc
+    try:
+        lev = m.get_steady_levels()
+        x = np.array([float(lev[vname(j)]) for j in range(spec["n"])])
+    except Exception:
+        return None
+    with np.errstate(all="ignore"):
+        V = np.where(spec["logs"], np.log(x), x)
+        if not np.all(np.isfinite(V)) or np.abs(steady_residual(spec, V)).max() > 1e-8:
+            return None
+        Jc = own_jacobian(spec, V)
+        nf, nun, dist = own_root_count(spec, Jc)
+    return V, Jc, nf, nun, dist
+
+
 def gen_determinate(rng, max_states):
     for _ in range(400):
         spec = gen_spec(rng, max_states)
@@ -865,6 +895,10 @@ def correspondence(ctx) -> CorrResult:
         except Exception as e:      # steady state or solver refuses the model: not a correspondence case
             k = type(e).__name__
             dist["skipped"][k] = dist["skipped"].get(k, 0) + 1
+            continue
+        acc = accept_at_model_steady(spec, m, acc)
+        if acc is None or acc[3] != acc[2] or acc[4] <= 0.03:
+            dist["skipped"]["other-steady-state"] = dist["skipped"].get("other-steady-state", 0) + 1
             continue
         b = Bundle(spec, m, rec)
         if b.nb == 0 or rec.schur is None or rec.qz is None:
@@ -1054,6 +1088,11 @@ def falsify(ctx, hints):
         except Exception as e:
             info["skipped"] += 1
             continue
+        acc = accept_at_model_steady(spec, m, acc)
+        if acc is None:
+            info["skipped"] += 1
+            continue
+        V, Jc, nf, nun, dist = acc
         info["models"] += 1
         src = render_source(spec)[0]
         s = m.get_solution()
@@ -1112,6 +1151,12 @@ def falsify(ctx, hints):
             with contextlib.redirect_stdout(io.StringIO()):
                 m, rec = build_model(spec)
         except Exception:
+            continue
+        acc = accept_at_model_steady(spec, m, acc)
+        if acc is None:
+            continue
+        V, Jc, nf, nun, dist = acc
+        if nun == nf or dist < 0.03:
             continue
         info["indeterminate_or_unstable_models"] += 1
         s = m.get_solution()
